@@ -106,7 +106,13 @@ impl Property for C13 {
         let ttl_ms = *src.pick(&[3_600_000u64, 100, 10_000_000]);
         let compact_delay = *src.pick(&[0u64, 200, 7_200_000]);
         let n_compactions = 1 + src.below(2);
-        let extra: Vec<ReplicationDelta> = if concurrent {
+        // a third of the sequential layouts is written by one long-lived StreamingPersistence (push + flush per segment, as the
+        // server's persistence worker does), which after the compaction(s) flushes once more: whatever that instance
+        // remembers of its earlier flushes meets a manifest the compaction has rewritten. Now and then one of the
+        // compaction's deletes of its inputs fails (the object stays behind as an orphan).
+        let lifecycle = !concurrent && src.chance(1, 3);
+        let delete_fault: Option<u64> = if lifecycle && src.chance(1, 3) { Some(src.below(3)) } else { None };
+        let extra: Vec<ReplicationDelta> = if concurrent || lifecycle {
             // the concurrently flushed updates come from the tail of another stream over the same keys
             // the concurrent writer continues the replicas' clocks: no stamp of the first stream (top-level or
             // per hash field) is issued again with a different value
@@ -141,7 +147,23 @@ impl Property for C13 {
             let mm = ManifestManager::new(st.clone(), PREFIX);
             let mut manifest = Manifest::new(1);
             let mut infos = Vec::new();
+            let wcfg_l = WriteBufferConfig { flush_interval: Duration::from_millis(50), max_size_bytes: 1 << 20, max_deltas: 1000, backpressure_threshold_bytes: 1 << 22, compression_enabled: false };
+            let mut writer: Option<StreamingPersistence<SimStore, SimClock>> = None;
+            if lifecycle {
+                let mut p = match StreamingPersistence::with_clock(Arc::new(st.as_actor(2)), PREFIX.to_string(), 1, wcfg_l, clock.clone()).await { Ok(p) => p, Err(e) => return Out { before: Err(e.to_string()), after: Err(String::new()), compact_ok: vec![], flush_ok: None, removed: vec![], input_keys: vec![], cops: 0, fops: 0, order: vec![], steps: 0, manifest_before: None, setup: Some("persistence".into()) } };
+                for ds in segs2.iter() {
+                    for d in ds { let _ = p.push(d.clone()); }
+                    match p.flush().await {
+                        Ok(fr) => { if let Some(s) = fr.segment { infos.push(s); } }
+                        Err(e) => return Out { before: Err(e.to_string()), after: Err(String::new()), compact_ok: vec![], flush_ok: None, removed: vec![], input_keys: vec![], cops: 0, fops: 0, order: vec![], steps: 0, manifest_before: None, setup: Some("flush".into()) },
+                    }
+                }
+                manifest = match mm.load().await { Ok(m) => m, Err(e) => return Out { before: Err(e.to_string()), after: Err(String::new()), compact_ok: vec![], flush_ok: None, removed: vec![], input_keys: vec![], cops: 0, fops: 0, order: vec![], steps: 0, manifest_before: None, setup: Some("load".into()) } };
+                if infos.len() != segs2.len() || infos.iter().enumerate().any(|(i, s)| s.id != i as u64) { return Out { before: Err("segment ids".into()), after: Err(String::new()), compact_ok: vec![], flush_ok: None, removed: vec![], input_keys: vec![], cops: 0, fops: 0, order: vec![], steps: 0, manifest_before: None, setup: Some("ids".into()) }; }
+                writer = Some(p);
+            }
             for ds in segs2.iter() {
+                if lifecycle { break; }
                 let id = manifest.allocate_segment_id();
                 let key = format!("{}/segments/segment-{:08}.seg", PREFIX, id);
                 let bytes = seg_bytes(ds);
@@ -171,15 +193,20 @@ impl Property for C13 {
                 let st_c = st.as_actor(1);
                 if let Some(j) = compact_corrupt_read { st.set_who_plan([((1u32, j), crate::simkit::store::StoreFault::GetCorrupt)].into_iter().collect()); }
                 if compact_rename_ambiguous { st.inner.lock().unwrap().next_rename_fault.insert(1, crate::simkit::store::StoreFault::RenameAmbiguous); }
+                if let Some(k) = delete_fault { st.inner.lock().unwrap().next_delete_fault.insert(1, k); }
                 let mut compactor = Compactor::with_time_source(Arc::new(st_c.clone()), PREFIX.to_string(), ManifestManager::new(st_c.clone(), PREFIX), ccfg, clock.clone());
                 // every other fault-free layout is compacted the way the background worker does it: compact_if_needed()
-                let via_if_needed = compact_corrupt_read.is_none() && !compact_rename_ambiguous && n_compactions % 2 == 0;
+                let via_if_needed = compact_corrupt_read.is_none() && !compact_rename_ambiguous && delete_fault.is_none() && n_compactions % 2 == 0;
                 for _ in 0..n_compactions {
                     if via_if_needed {
                         match compactor.compact_if_needed().await { Ok(Some(r)) => { compact_ok.push(true); removed.extend(r.segments_removed.iter().map(|s| s.id)); } Ok(None) => compact_ok.push(false), Err(_) => compact_ok.push(false) }
                     } else {
                         match compactor.compact().await { Ok(r) => { compact_ok.push(true); removed.extend(r.segments_removed.iter().map(|s| s.id)); } Err(_) => compact_ok.push(false) }
                     }
+                }
+                if let Some(p) = writer.as_mut() {
+                    for d in &extra2 { let _ = p.push(d.clone()); }
+                    flush_ok = Some(p.flush().await.is_ok());
                 }
             } else {
                 let wcfg = WriteBufferConfig { flush_interval: Duration::from_millis(50), max_size_bytes: 1 << 20, max_deltas: 1000, backpressure_threshold_bytes: 1 << 22, compression_enabled: false };
@@ -238,8 +265,9 @@ impl Property for C13 {
             rep.trace.push(format!("compact results {:?}, flush result {:?}, segments removed {:?}", out.compact_ok, out.flush_ok, out.removed));
         }
         let _ = OpKind::Put;
-        for e in store.inner.lock().unwrap().events.iter() { if let Some(f) = e.fault { rep.fault(f.name()); rep.probe(if e.who == 2 { "flush_reload_failed_transiently" } else if matches!(f, crate::simkit::store::StoreFault::RenameAmbiguous) { "compaction_manifest_swap_ambiguous" } else { "compaction_read_corrupted" }); } }
-        if out.setup.is_some() { rep.evals = 1; return rep; }
+        for e in store.inner.lock().unwrap().events.iter() { if let Some(f) = e.fault { rep.fault(f.name()); rep.probe(if e.who == 2 { "flush_reload_failed_transiently" } else if matches!(f, crate::simkit::store::StoreFault::RenameAmbiguous) { "compaction_manifest_swap_ambiguous" } else if matches!(f, crate::simkit::store::StoreFault::DeleteError) { "compaction_input_delete_failed" } else { "compaction_read_corrupted" }); } }
+        if out.setup.is_some() { if lifecycle { rep.probe("lifecycle_setup_abandoned"); } rep.evals = 1; return rep; }
+        if lifecycle { rep.probe("segments_written_and_later_flush_by_one_long_lived_writer"); }
         let before = match out.before { Ok(b) => b, Err(e) => { rep.violate("C13/recover-before-failed", e); return rep; } };
         // the recorded race needs the two operations to be in progress at the same time: their spans of store
         // calls intersect. A flush that runs entirely before or entirely after the compaction must be safe.
@@ -247,7 +275,7 @@ impl Property for C13 {
         let overlapped = concurrent && match (span(1), span(2)) { (Some((c0, c1)), Some((f0, f1))) => f0 < c1 && c0 < f1, _ => false };
         if concurrent && !overlapped && span(1).is_some() && span(2).is_some() { rep.probe("flush_strictly_beside_compaction"); }
         let after = match out.after { Ok(a) => a, Err(e) => {
-            let key = if overlapped { "C13/concurrent-flush/recovery-fails-after" } else if concurrent { "C13/flush-beside-compaction/recovery-fails-after" } else { "C13/recovery-fails-after-compaction" };
+            let key = if overlapped { "C13/concurrent-flush/recovery-fails-after" } else if concurrent || lifecycle { "C13/flush-beside-compaction/recovery-fails-after" } else { "C13/recovery-fails-after-compaction" };
             rep.violate(key, format!("recovery succeeded before compaction but fails after: {}", e)); rep.evals = 1; return rep; } };
         // expected = before (+ the concurrently flushed updates if the flush was confirmed)
         let mut expected = before.clone();
@@ -301,7 +329,7 @@ impl Property for C13 {
             } else if e_dead && a.map(|v| !v.is_tombstone()).unwrap_or(false) && a_vis != e_vis {
                 key = "C13/tombstone-dropped-older-value-resurfaces";
                 msg = format!("key {}: deleted before compaction, but afterwards recovery returns {} (an older value from a segment or checkpoint outside the compaction input)", k, a_vis.clone().unwrap_or_default());
-            } else if concurrent && (out.flush_ok == Some(true)) && extra.iter().any(|d| &d.key == k) && before.get(k).map(proj_s) == a.map(proj_s) {
+            } else if (concurrent || lifecycle) && (out.flush_ok == Some(true)) && extra.iter().any(|d| &d.key == k) && before.get(k).map(proj_s) == a.map(proj_s) {
                 key = "C13/flush-beside-compaction/confirmed-flush-lost";
                 msg = format!("key {}: a flush that returned Ok (store calls strictly before or after the compaction's, order {:?}) is not in the recovered state: expected {} got {}", k, out.order, e.map(proj_s).unwrap_or_default(), a.map(proj_s).unwrap_or_default());
             } else if input_deltas.iter().any(|d| &d.key == k && d.value.is_hash()) {
@@ -318,9 +346,9 @@ impl Property for C13 {
         rep.nontrivial = interesting;
         let mut fp = fnv(0, format!("{:?}{:?}{}{}{}{}", sizes, stream_info, target, cp_prefix, max_per, ttl_ms).as_bytes());
         for w in &out.order { fp = fnv(fp, &[*w as u8]); }
-        rep.fingerprint = mix(fp, mode);
+        rep.fingerprint = mix(fp, mode + 16 * lifecycle as u64);
         rep.sample = Some(json!({
-            "mode": if concurrent { "compact || flush" } else { "compact alone" },
+            "mode": if concurrent { "compact || flush" } else if lifecycle { "one long-lived writer: flushes, compaction, flush" } else { "compact alone" },
             "stream": stream.iter().take(8).map(|e| e.op.clone()).collect::<Vec<_>>(),
             "segment_sizes": sizes, "target_segment_size": target, "checkpoint_over_first_segments": cp_prefix,
             "segments_removed": out.removed, "compaction_store_ops": out.cops, "flush_store_ops": out.fops,
